@@ -30,20 +30,38 @@ namespace Subs
 
 def methName (m : Nat) : String := "n" ++ String.singleton (Char.ofNat (65 + m))
 
+/-! typed subscription ids on the line protocol: a decimal number is `Num n`, `s<hex>` is `Str`
+(`s-` = the empty string); the model works with `idKey` of the typed id -/
+
+def parseSid (w : String) : Option Nat :=
+  if w.startsWith "s" then (unhexText (w.drop 1).toString).map (fun t => idKey (.str t))
+  else w.toNat?.map (fun n => idKey (.num n))
+
+/-- inverse of `codeText` (number of trailing zero bits = first code point) -/
+partial def decodeCode (k : Nat) : Text :=
+  if k == 0 then []
+  else
+    let rec tz (n c : Nat) : Nat × Nat := if n % 2 == 0 && n != 0 then tz (n / 2) (c + 1) else (c, n)
+    let (c, odd) := tz k 0
+    c :: decodeCode (odd / 2)
+
+def keyRepr (k : Nat) : String :=
+  if k % 2 == 0 then s!"{k / 2}" else "s" ++ hexText (decodeCode (k / 2))
+
 def frameRepr : Frame → String
-  | .resp rid sid => s!"resp:{rid}:{sid}"
+  | .resp rid sid => s!"resp:{rid}:{keyRepr sid}"
   | .err rid code => s!"err:{rid}:{code}"
   | .unsub rid b => s!"bool:{rid}:{if b then 1 else 0}"
-  | .data m sid p => s!"ntf:{methName m}:{sid}:{p}"
-  | .closeOk m sid p => s!"ntf:{methName m}:{sid}:{p}"
-  | .closeErr m sid e => s!"nerr:{methName m}:{sid}:{e}"
+  | .data m sid p => s!"ntf:{methName m}:{keyRepr sid}:{p}"
+  | .closeOk m sid p => s!"ntf:{methName m}:{keyRepr sid}:{p}"
+  | .closeErr m sid e => s!"nerr:{methName m}:{keyRepr sid}:{e}"
 
 def outRepr : Out → String
   | .bad => "bad"
   | .ignored => "ignored"
   | .blocked => "blocked"
   | .refused => "refused"
-  | .pending sid => s!"pending:{sid}"
+  | .pending sid => s!"pending:{keyRepr sid}"
   | .ok => "ok"
   | .err => "err"
   | .nosink => "nosink"
@@ -131,6 +149,12 @@ def runOps (s : SubSt) (ops : List Op) (sep : String) : SubSt × String :=
   let (st2, fss, w) := settle s.eager st1 s.waiting
   ({ s with st := st2, waiting := w }, lineRepr (String.intercalate sep os) st2 fss)
 
+/-- how a send is issued: flavour `s` (send) | `t` (send_timeout) | `y` (try_send), message kind `c`
+(`SubscriptionMessage::new`, already serialised) | `n` (from a raw value, id/method filled in by the
+sink).  The model is indifferent: all six are the one atomic step `Op.send` (closed check, then
+enqueue). -/
+def sendHow (w : String) : Bool := ["sc", "sn", "tc", "tn", "yc", "yn"].contains w
+
 def nat3 (a b c : String) : Option (Nat × Nat × Nat) :=
   match a.toNat?, b.toNat?, c.toNat? with
   | some x, some y, some z => some (x, y, z)
@@ -152,19 +176,19 @@ def subsVerb (s : SubSt) (ws : List String) : Option (SubSt × String) :=
     some (match rest with
       | ["sub", c, m, rid, sid] =>
         -- `sid` = the id the harness's id provider will hand out if the call gets a permit
-        (match nat3 c m rid, sid.toNat? with
+        (match nat3 c m rid, parseSid sid with
           | some (c, m, rid), some sid => runOp s (.subscribe c m rid sid)
           | _, _ => (s, "bad-op"))
       | ["accept", k] =>
         (match k.toNat? with | some k => runOp s (.accept k) | none => (s, "bad-op"))
-      | ["acceptsend", k, p] =>
+      | ["acceptsend", k, p, how] =>
         (match k.toNat?, p.toNat? with
-          | some k, some p => runOps s [.accept k, .send k p] "+"
+          | some k, some p => if sendHow how then runOps s [.accept k, .send k p] "+" else (s, "bad-op")
           | _, _ => (s, "bad-op"))
-      | ["burst", k, p, n] =>
+      | ["burst", k, p, n, how] =>
         (match nat3 k p n with
           | some (k, p, n) =>
-            if n == 0 || n > 16 then (s, "bad-op")
+            if n == 0 || n > 16 || !sendHow how then (s, "bad-op")
             else runOps s ((List.range n).map (fun i => Op.send k (p + i))) ","
           | none => (s, "bad-op"))
       | ["reject", k, code] =>
@@ -173,9 +197,9 @@ def subsVerb (s : SubSt) (ws : List String) : Option (SubSt × String) :=
           | _, _ => (s, "bad-op"))
       | ["droppending", k] =>
         (match k.toNat? with | some k => runOp s (.dropPending k) | none => (s, "bad-op"))
-      | ["send", k, p] =>
+      | ["send", k, p, how] =>
         (match k.toNat?, p.toNat? with
-          | some k, some p => runOp s (.send k p)
+          | some k, some p => if sendHow how then runOp s (.send k p) else (s, "bad-op")
           | _, _ => (s, "bad-op"))
       | ["clone", k] =>
         (match k.toNat? with | some k => runOp s (.cloneSink k) | none => (s, "bad-op"))
@@ -188,9 +212,18 @@ def subsVerb (s : SubSt) (ws : List String) : Option (SubSt × String) :=
           | some k, some r => runOp s (.handlerReturn k r)
           | _, _ => (s, "bad-op"))
       | ["unsub", c, m, x, rid] =>
-        (match nat3 c m x, rid.toNat? with
-          | some (c, m, x), some rid => runOp s (.unsubscribe c m x rid)
-          | _, _ => (s, "bad-op"))
+        -- `x`: a typed id, or `j<hex of the raw params text>` for a parameter that is not a subscription id
+        (match c.toNat?, m.toNat?, rid.toNat? with
+          | some c, some m, some rid =>
+            if x.startsWith "j" then
+              (match unhexText (x.drop 1).toString with
+                | some _ => runOp s (.unsubscribeBad c rid)
+                | none => (s, "bad-op"))
+            else
+              (match parseSid x with
+                | some x => runOp s (.unsubscribe c m x rid)
+                | none => (s, "bad-op"))
+          | _, _, _ => (s, "bad-op"))
       | ["connclose", c, how] =>
         -- `how` (graceful = WebSocket close frame first | abrupt = socket dropped) is one model step
         (match c.toNat? with
